@@ -152,6 +152,33 @@ def modules(m1: bool, m2: bool, hy0: bool, hy1: bool, order: int, inner: bool,
     return True
 
 
+def same_name(a0: int, a1: int, a2: int, a3: int, order: int, local_first: bool, backend: int) -> bool:
+    """
+    requires: 0 <= a0 < 4 and 0 <= a1 < 4 and 0 <= a2 < 4 and 0 <= a3 < 4 and 0 <= order < 6 and 0 <= backend <= 1
+    """
+    # identifiers are module-scoped: MA and MB each declare a node called `common` at different OIDs; MB reaches MA's
+    # subtree through an imported symbol and its own `common` locally - neither resolution may leak into the other
+    v0, v1, v2, v3 = pick(BSET, a0), pick(BSET, a1), pick(BSET, a2), pick(BSET, a3)
+    ma = m.module('MA', [], [m.value_decl('common', m.oid('iso', 3, v0)), m.value_decl('viaA', m.oid('common', v1))])
+    db = [m.value_decl('common', m.oid('iso', 4, v2)), m.value_decl('underA', m.oid('viaA', 7)), m.value_decl('underB', m.oid('common', v3))]
+    if not local_first:
+        db = [db[1], db[2], db[0]]
+    mb = m.module('MB', [('MA', ['viaA'])], db)
+    perm = pick(PERMS3, order)
+    try:
+        trees = tok.parse_tokens(ma) + tok.parse_tokens(mb)
+        res = tok.compile_trees(trees, backend='pysnmp' if backend else 'json', order=[i for i in perm if i < 2])
+    except error.PySmiError:
+        return False
+    exp = {('MA', 'common'): (1, 3, v0), ('MA', 'viaA'): (1, 3, v0, v1), ('MB', 'common'): (1, 4, v2),
+           ('MB', 'underA'): (1, 3, v0, v1, 7), ('MB', 'underB'): (1, 4, v2, v3)}
+    for (mod, name), want in exp.items():
+        got = res.ctx[mod][name]['oid']
+        if got != (want if backend else dotted(want)):
+            return False
+    return set(res.info['MB'].oids) == set(dotted(exp[k]) for k in exp if k[0] == 'MB')
+
+
 def trap(number: int, a0: int, a1: int, ent_after: bool, upper: bool) -> bool:
     """
     requires: arc_ok(number, a0, a1)
@@ -236,6 +263,11 @@ def conditions(prop, tier):
                     bounds='TRAP-TYPE under the smiV1 dialect: enterprise declared before/after, upper/lower-case trap name; '
                            'trap number and arcs unbounded'))
     for be in (0, 1):
+        out.append(dict(name='C01.K2.same-name.%s' % ('pysnmp' if be else 'json'), fn='same_name', fixed=dict(backend=be), timeout=t,
+                        extra_pre=['a0 < 2 and a1 < 2 and a2 < 2 and a3 < 2'] if q else [],
+                        bounds='two modules that each declare a node of the SAME name at different OIDs, one subtree reached through an imported '
+                               'symbol, the other locally; both declaration orders, all build orders, arcs from the boundary set'))
+    for be in (0, 1):
         for cf in (False, True):
             out.append(dict(name='C01.K2.render.%s.cf%d' % ('pysnmp' if be else 'json', cf), fn='render',
                             fixed=dict(backend=be, child_first=cf), timeout=t,
@@ -248,6 +280,7 @@ def selftests(prop):
     return [('tree_order', dict(p2=1, p3=0, perm=17, r=2, sp1=1, sp2=0, sp3=1, a0=3, a1=6, a2=0, a3=U32, mid=9)),
             ('kinds', dict(kp=0, kc=2, child_first=True, a0=3, a1=6, a2=1)),
             ('modules', dict(m1=True, m2=False, hy0=False, hy1=False, order=0, inner=False, a0=3, a1=6, a2=1)),
+            ('same_name', dict(a0=1, a1=2, a2=3, a3=0, order=1, local_first=True, backend=0)),
             ('trap', dict(number=5, a0=3, a1=6, ent_after=False, upper=False)),
             ('render', dict(kc=0, i0=1, i1=1, i2=3, ent=True, child_first=False, backend=0)),
             ('render', dict(kc=6, i0=1, i1=0, i2=3, ent=False, child_first=False, backend=1))]
